@@ -82,6 +82,10 @@ type FakeUpstream struct {
 
 	open        atomic.Int64 // stream / QUIC connections currently open (as far as the server can tell)
 	AcceptDelay atomic.Int64 // nanoseconds to wait before serving an accepted stream connection (delayed handshake)
+	// DoQ: connections accepted so far keep running, but new streams on them are reset (RESET_STREAM / STOP_SENDING);
+	// connections accepted later are served normally. Set by ResetStreamsOnLiveConns.
+	resetStreamsUpTo atomic.Int64
+	streamResets     atomic.Int64
 	StopReading atomic.Bool  // stream kinds: while set, no further frame is read from any connection (the peer's writes back up)
 	liveMu      sync.Mutex
 	live        map[int64]io.Closer // open accepted connections by id
@@ -134,6 +138,11 @@ func (u *FakeUpstream) KillConns(reset bool) int {
 	}
 	return len(cs)
 }
+
+// ResetStreamsOnLiveConns makes every DoQ connection accepted so far refuse new streams (it returns how many streams have
+// been refused up to now).
+func (u *FakeUpstream) ResetStreamsOnLiveConns() { u.resetStreamsUpTo.Store(u.connSeq.Load()) }
+func (u *FakeUpstream) StreamResets() int64     { return u.streamResets.Load() }
 
 type quicCloser struct{ c quic.Connection }
 
@@ -553,6 +562,13 @@ func (u *FakeUpstream) serveQUIC(l *quic.Listener) {
 				}
 				go func() {
 					defer s.Close()
+					if id <= u.resetStreamsUpTo.Load() {
+						// a connection the server is draining: it stays open, but every new stream on it is refused
+						s.CancelRead(1)
+						s.CancelWrite(1)
+						u.streamResets.Add(1)
+						return
+					}
 					var lb [2]byte
 					if _, err := io.ReadFull(s, lb[:]); err != nil {
 						return
